@@ -11,6 +11,9 @@ package didsubject_test
 // didweb imports didsubject.
 
 import (
+	"context"
+	"database/sql"
+	"database/sql/driver"
 	"errors"
 	"fmt"
 	"net/http"
@@ -46,6 +49,58 @@ type c18LocalOp struct {
 	Time string `json:"time,omitempty"`
 	V    int    `json:"v,omitempty"`    // version selector for at/between (modulo the number of versions)
 	Also string `json:"also,omitempty"` // resolve: additionally set "hash" or "tx" (fields this resolver does not implement)
+	// resolve: the storage fails at the resolver's read (nil = healthy storage)
+	Fault *c18Fault `json:"fault,omitempty"`
+}
+
+// c18Fault is a storage fault at the read that decides "is this DID managed here, and what is its document". It is active
+// only while the resolution under test runs; the history is written and the model is checked on healthy storage.
+type c18Fault struct {
+	// cancelled | deadline: the resolver's database handle carries a context that is cancelled / past its deadline
+	// closed: the handle's connection pool is closed (shutdown race, connection loss)
+	// hook: SQL statement number At of the resolution fails with error Err before it reaches the driver
+	// no-table: table number At of the four the read touches is missing (renamed away for the duration of the resolution)
+	Kind string `json:"kind"`
+	At   int    `json:"at,omitempty"`
+	Err  string `json:"err,omitempty"` // hook: generic | conn-done | bad-conn | canceled | deadline | tx-done | invalid-db
+}
+
+var c18HookErrs = map[string]error{
+	"generic":    errors.New("c18: injected storage failure"),
+	"conn-done":  sql.ErrConnDone,
+	"bad-conn":   driver.ErrBadConn,
+	"canceled":   context.Canceled,
+	"deadline":   context.DeadlineExceeded,
+	"tx-done":    sql.ErrTxDone,
+	"invalid-db": gorm.ErrInvalidDB,
+}
+
+// the tables SqlDIDDocumentManager.Latest reads, in the order it reads them (version row, then the three preloads)
+var c18ReadTables = []string{"did_document_version", "did", "did_service", "did_verification_method"}
+
+func c18GenFault(t *rapid.T) *c18Fault {
+	f := &c18Fault{Kind: rapid.SampledFrom([]string{"hook", "closed", "cancelled", "hook", "deadline", "hook", "closed", "cancelled", "hook", "no-table"}).Draw(t, "fault")}
+	switch f.Kind {
+	case "hook":
+		f.At = rapid.SampledFrom([]int{0, 0, 1, 2, 3, 4}).Draw(t, "faultat") // 4 = after the last statement: never fires
+		f.Err = rapid.SampledFrom([]string{"generic", "conn-done", "bad-conn", "canceled", "deadline", "tx-done", "invalid-db"}).Draw(t, "faulterr")
+	case "no-table":
+		f.At = rapid.IntRange(0, len(c18ReadTables)-1).Draw(t, "faultat")
+	}
+	return f
+}
+
+func (f *c18Fault) String() string {
+	if f == nil {
+		return "none"
+	}
+	switch f.Kind {
+	case "hook":
+		return fmt.Sprintf("hook(statement %d fails: %s)", f.At, f.Err)
+	case "no-table":
+		return fmt.Sprintf("no-table(%d)", f.At)
+	}
+	return f.Kind
 }
 
 type c18LocalCase struct {
@@ -83,6 +138,9 @@ func c18GenLocal(t *rapid.T) c18LocalCase {
 			if rapid.IntRange(0, 7).Draw(t, "also") == 0 {
 				op.Also = rapid.SampledFrom([]string{"hash", "tx"}).Draw(t, "alsokind")
 			}
+			if rapid.IntRange(0, 2).Draw(t, "faulty") == 0 {
+				op.Fault = c18GenFault(t)
+			}
 		}
 		c.Ops = append(c.Ops, op)
 	}
@@ -103,8 +161,94 @@ func c18LocalDB(tb testing.TB) *gorm.DB {
 			tb.Fatal(err)
 		}
 		c18DB = e.GetSQLDatabase()
+		if err := c18InstallFaultHook(c18DB); err != nil {
+			tb.Fatal(err)
+		}
 	})
 	return c18DB
+}
+
+// c18Hook is the armed statement-level fault: callbacks registered once on the shared handle (gorm keeps callbacks per
+// configuration, so every session derived from it runs them), a no-op unless armed.
+var c18Hook struct {
+	armed, fired bool
+	at, seen     int
+	err          error
+}
+
+func c18InstallFaultHook(db *gorm.DB) error {
+	fn := func(tx *gorm.DB) {
+		if !c18Hook.armed {
+			return
+		}
+		if c18Hook.seen == c18Hook.at {
+			c18Hook.fired = true
+			_ = tx.AddError(c18Hook.err)
+		}
+		c18Hook.seen++
+	}
+	if err := db.Callback().Query().Before("gorm:query").Register("c18:storage-fault", fn); err != nil {
+		return err
+	}
+	if err := db.Callback().Row().Before("gorm:row").Register("c18:storage-fault", fn); err != nil {
+		return err
+	}
+	return db.Callback().Raw().Before("gorm:raw").Register("c18:storage-fault", fn)
+}
+
+var c18ClosedPool *sql.DB
+
+// c18FaultyHandle applies the fault: it returns the handle the resolver under test gets and a function that ends the fault
+// and tells whether it took effect. Everything else (the manager that writes the history, the model checks) keeps db.
+func c18FaultyHandle(x *h.Ctx, db *gorm.DB, f *c18Fault) (*gorm.DB, func() bool) {
+	switch f.Kind {
+	case "cancelled":
+		ctx, cancel := context.WithCancel(context.Background())
+		cancel()
+		return db.WithContext(ctx), func() bool { return true }
+	case "deadline":
+		ctx, cancel := context.WithDeadline(context.Background(), time.Unix(c18Base, 0))
+		return db.WithContext(ctx), func() bool { cancel(); return true }
+	case "closed":
+		if c18ClosedPool == nil {
+			// a second pool on the same database file, closed: same dialector, callbacks and error translation as the real handle
+			var file string
+			x.NoErr(db.Raw("SELECT file FROM pragma_database_list WHERE name = 'main'").Scan(&file).Error, "database file")
+			pool, err := sql.Open("sqlite", "file:"+file)
+			x.NoErr(err, "open second pool")
+			x.NoErr(pool.Ping(), "ping second pool")
+			x.NoErr(pool.Close(), "close second pool")
+			c18ClosedPool = pool
+		}
+		// a session with a context gets its own Statement (the plain session shares the handle's), so the real handle keeps its pool
+		tx := db.Session(&gorm.Session{NewDB: true, Context: context.Background()})
+		if tx.Statement == db.Statement {
+			x.Fatalf("session shares the statement of the real handle")
+		}
+		tx.Statement.ConnPool = c18ClosedPool
+		return tx, func() bool { return true }
+	case "hook":
+		e := c18HookErrs[f.Err]
+		if e == nil {
+			e = c18HookErrs["generic"]
+		}
+		c18Hook.armed, c18Hook.fired, c18Hook.at, c18Hook.seen, c18Hook.err = true, false, f.At, 0, e
+		return db, func() bool { c18Hook.armed = false; return c18Hook.fired }
+	case "no-table":
+		tbl := c18ReadTables[((f.At%len(c18ReadTables))+len(c18ReadTables))%len(c18ReadTables)]
+		x.NoErr(db.Exec("ALTER TABLE "+tbl+" RENAME TO "+tbl+"_c18gone").Error, "rename table away")
+		restored := false
+		restore := func() bool {
+			if !restored {
+				restored = true
+				x.NoErr(db.Exec("ALTER TABLE "+tbl+"_c18gone RENAME TO "+tbl).Error, "rename table back")
+			}
+			return true
+		}
+		x.Cleanup(func() { restore() })
+		return db, restore
+	}
+	return db, func() bool { return false }
 }
 
 // c18Version is what the harness knows about one stored version of a managed document.
@@ -195,12 +339,17 @@ func c18RunLocal(x *h.Ctx, c c18LocalCase) {
 	oldT := client.DefaultCachingTransport
 	client.DefaultCachingTransport = nw
 	x.Cleanup(func() { client.DefaultCachingTransport = oldT })
-	chain := resolver.ChainedDIDResolver{Resolvers: []resolver.DIDResolver{didsubject.Resolver{DB: db}, didweb.NewResolver()}}
+	webResolver := didweb.NewResolver()
+	// the chain of vdr.Module.Configure: own database first, then the web; rdb is the handle the SQL resolver reads through
+	chainOn := func(rdb *gorm.DB) resolver.DIDResolver {
+		return resolver.ChainedDIDResolver{Resolvers: []resolver.DIDResolver{didsubject.Resolver{DB: rdb}, webResolver}}
+	}
+	chain := chainOn(db)
 
 	c18Seq++
 	subs := map[int]*c18Subject{}
 	ctx := audit.TestContext()
-	sawDeactivatedResolve, sawActiveResolve, sawForeign := false, false, false
+	sawDeactivatedResolve, sawActiveResolve, sawForeign, sawFault, sawFaultOnDeactivated := false, false, false, false, false
 
 	for i, op := range c.Ops {
 		s := subs[op.S]
@@ -270,17 +419,25 @@ func c18RunLocal(x *h.Ctx, c c18LocalCase) {
 			if md == nil {
 				x.Class("metadata:nil")
 			}
-			what := fmt.Sprintf("allow=%v time=%s(v%d of %d) also=%s nil-metadata=%v", op.Allow, op.Time, ver, len(s.versions), op.Also, md == nil)
+			what := fmt.Sprintf("allow=%v time=%s(v%d of %d) also=%s nil-metadata=%v storage-fault=%s", op.Allow, op.Time, ver, len(s.versions), op.Also, md == nil, op.Fault)
 			for _, id := range s.dids {
 				for _, via := range []string{"chain", "direct"} {
-					var rs resolver.DIDResolver = chain
+					rdb, endFault := db, func() bool { return false }
+					if op.Fault != nil {
+						rdb, endFault = c18FaultyHandle(x, db, op.Fault)
+					}
+					var rs resolver.DIDResolver = chainOn(rdb)
 					if via == "direct" {
-						rs = didsubject.Resolver{DB: db}
+						rs = didsubject.Resolver{DB: rdb}
 					}
 					nw.Reset()
 					foreignBody = fmt.Sprintf(`{"@context":"https://www.w3.org/ns/did/v1","id":%q,"controller":%q,"service":[{"id":"%s#leak","type":"from-the-web","serviceEndpoint":"https://evil.example"}]}`, id.String(), id.String(), id.String())
 					doc, dmd, err := rs.Resolve(id, md)
+					faulted := endFault()
 					netLog := nw.Log()
+					if op.Fault != nil {
+						x.Classf("storage-fault:%s:%s", op.Fault.Kind, c18FaultEffect(op.Fault.Kind, faulted))
+					}
 
 					// the clause that holds whatever else the metadata asks for: a deactivated document is never handed out
 					// unless the caller allows it
@@ -300,6 +457,11 @@ func c18RunLocal(x *h.Ctx, c c18LocalCase) {
 					if ver < 0 {
 						// requested time lies before the creation: no local version. Direct: ErrNotFound (resolver_test.go). Through the
 						// chain the DID is then treated like an unmanaged one; counted, not judged.
+						if faulted {
+							// no local version at that time AND a failed read: nothing is demanded
+							x.Class("storage-fault:before-creation(not-judged)")
+							continue
+						}
 						if via == "direct" && !errors.Is(err, resolver.ErrNotFound) {
 							x.Violate("local-time:before-creation-resolved", "step %d: %s at a time before its creation: %v, want ErrNotFound", i, id, err)
 						}
@@ -308,10 +470,41 @@ func c18RunLocal(x *h.Ctx, c c18LocalCase) {
 						}
 						continue
 					}
+					want := s.versions[ver]
+					if faulted {
+						// The storage failed while this managed DID was read. Nothing can be demanded about WHICH error comes back;
+						// what the statement still guarantees: no network access for a managed DID, never the web's document, and a
+						// deactivated DID stays unresolvable. An error is the expected outcome and is accepted as it is.
+						sawFault = true
+						if want.deactivated {
+							sawFaultOnDeactivated = true
+						}
+						if len(netLog) > 0 {
+							x.Violate("local-net:request:storage-fault", "step %d (%s): the storage failed while the locally managed %s was read and the resolution went to the network: %s (%s)", i, via, id, netLog[0].URL, what)
+						}
+						webDoc := false
+						if doc != nil {
+							for _, sv := range doc.Service {
+								webDoc = webDoc || sv.Type == "from-the-web"
+							}
+						}
+						switch {
+						case err != nil:
+							x.Classf("storage-fault-outcome:%s:error(%s)", via, c18ErrClass(err))
+							continue
+						case webDoc:
+							x.Violate("local-net:web-document-returned:storage-fault", "step %d (%s): the storage failed and the locally managed %s resolved to the document served by the web (%s)", i, via, id, what)
+							if want.deactivated && !op.Allow {
+								x.Violate("local-deactivated:resolved:storage-fault", "step %d (%s): %s is deactivated locally but resolved (from the web) without AllowDeactivated while the storage failed (%s)", i, via, id, what)
+							}
+							continue
+						}
+						// a document without an error although the read failed: judged like any other local answer
+						x.Classf("storage-fault-outcome:%s:document", via)
+					}
 					if len(netLog) > 0 {
 						x.Violate("local-net:request", "step %d (%s): resolving the locally managed %s went to the network: %s (%s)", i, via, id, netLog[0].URL, what)
 					}
-					want := s.versions[ver]
 					switch {
 					case want.deactivated && !op.Allow:
 						sawDeactivatedResolve = true
@@ -390,6 +583,25 @@ func c18RunLocal(x *h.Ctx, c c18LocalCase) {
 	if sawForeign {
 		x.Class("resolved-unmanaged-through-web")
 	}
+	if sawFault {
+		x.Class("resolved-managed-under-storage-fault")
+		x.NonTrivial()
+	}
+	if sawFaultOnDeactivated {
+		x.Class("resolved-deactivated-managed-under-storage-fault")
+	}
+}
+
+func c18ErrClass(err error) string {
+	switch {
+	case errors.Is(err, resolver.ErrDeactivated):
+		return "deactivated"
+	case errors.Is(err, resolver.ErrNotFound):
+		return "not-found"
+	case errors.Is(err, context.Canceled), errors.Is(err, context.DeadlineExceeded):
+		return "context"
+	}
+	return "storage"
 }
 
 func TestVerif_C18_Local(t *testing.T) {
@@ -398,4 +610,14 @@ func TestVerif_C18_Local(t *testing.T) {
 
 func TestVerifReplay_C18_Local(t *testing.T) {
 	h.Replay(t, "C18", "TestVerif_C18_Local", c18RunLocal, h.PanicIsViolation())
+}
+
+func c18FaultEffect(kind string, faulted bool) string {
+	switch {
+	case kind == "no-table":
+		return "table-missing-during-the-call"
+	case faulted:
+		return "took-effect"
+	}
+	return "did-not-fire"
 }
